@@ -177,6 +177,38 @@ def gen_history(rng, d, m, k, nops, probe_every):
     return h
 
 
+def gen_long(rng, d, m, k, cycles):
+    """a long plain run: >= 300 claim/send/receive/release cycles in bursts of 1..depth messages (sends in shuffled order),
+    so that every 8-bit index and counter of the structure wraps more than once; few observation ops (they are cheap but
+    the point here is the returned pointers)"""
+    h = [f'init {d} {m} {k}']
+    f = Fifo(d, m)
+    done = 0
+    while done < cycles:
+        burst = rng.range(1, d)
+        ts = []
+        for _ in range(burst):
+            h.append('claim'); ts.append(f.claimed); f.claimed += 1
+        if rng.chance(1, 8):
+            h.append('claim')                       # NULL when the burst filled the queue, else one more grant
+            if f.claimed - f.released < d:
+                ts.append(f.claimed); f.claimed += 1
+        for t in rng.shuffle(list(ts)):
+            h.append(f'send {f.off(t)}'); f.sent.add(t)
+        hold = rng.chance(1, 3)
+        for _ in ts:
+            h.append('receive'); f.received += 1
+            if not hold:
+                h.append('release'); f.released += 1
+        if hold:
+            h += ['release'] * len(ts); f.released += len(ts)
+        if rng.chance(1, 6):
+            h += ['receive', 'empty']
+        done += len(ts)
+    h += ['empty', 'state', 'guard']
+    return h
+
+
 def geometries(rng, n):
     """depth 1..32 (each depth at least once when n >= 32, 1/2/31/32 more often) x sizes x slack"""
     out = []
@@ -243,6 +275,11 @@ def run(ctx):
     for (d, m, k) in geometries(rng, 76 if quick else 8000):
         nops = rng.choice([12, 40, 40, 6 * d + 20, 8 * d + 40])
         hs.append(gen_history(rng, d, m, k, nops, probe_every=rng.chance(1, 2)))
+    long_depths = rng.shuffle([3, 5, 6, 7])[:2] + [rng.choice([9, 11, 12, 13, 15, 24, 31])] if quick else [3, 5, 6, 7, 9, 10, 11, 12, 13, 15, 17, 24, 31]
+    nlong = 0
+    for d in long_depths:
+        m = rng.choice([1, 3, 4, 8])
+        hs.append(gen_long(rng, d, m, rng.below(m), rng.range(300, 400) if quick else rng.range(520, 800))); nlong += 1
     nexh = 0
     if not quick:
         for (d, m, k, L) in [(1, 3, 2, 10), (2, 7, 0, 8), (3, 4, 1, 7), (32, 1, 0, 4)]:
@@ -250,7 +287,12 @@ def run(ctx):
     bad = [h for h in hs if not valid(h)]
     if bad:
         raise vlib.Infra('generator produced an out-of-scope history: %r' % bad[0][:10])
-    agreed = vlib.correspond(ctx, 'messageq', [exe], hs, spec=spec, valid=valid)
+    # first what a caller can observe (pointers, NULLs, empty, guard bytes): a difference there is the property failing;
+    # then the same histories with the `state` dumps (every field of the structure after every step): the model mirroring the code
+    obs = [[l for l in h if l != 'state'] for h in hs]
+    agreed = vlib.correspond(ctx, 'messageq', [exe], obs, spec=spec, valid=valid, label='messageq (observable results)')
+    if not ctx.violations and not ctx.broken:
+        agreed = vlib.correspond(ctx, 'messageq', [exe], hs, spec=spec, valid=valid, label='messageq (with structure contents)')
     depths, sizes, ops, nulls, wraps, b31 = {}, {}, {}, 0, 0, 0
     for h in hs:
         w = h[0].split(); d = int(w[1])
@@ -273,6 +315,7 @@ def run(ctx):
     ctx.cov['depth_histogram'] = {str(k): v for k, v in sorted(depths.items())}
     ctx.cov['msg_size_histogram'] = sizes
     ctx.cov['histories_wrapping_the_index'] = wraps
+    ctx.cov['long_histories_over_300_cycles'] = nlong
     ctx.cov['depth32_histories_reaching_bit31'] = b31
     ctx.cov['null_results_in_first_200'] = so.count('NULL')
     if nexh:
@@ -280,7 +323,7 @@ def run(ctx):
     ctx.sample({'history_prefix': hs[ncorpus][:10], 'length': len(hs[ncorpus])})
     ctx.sample({'history_prefix': hs[-1][:10], 'length': len(hs[-1])})
     ctx.cov['rule'] = ('geometries depth 1..32 x sizes {1,2,3,4,7,8,12,255,4096,..} x slack {0,1,size-1,random}; histories of claim/send/receive/release in four shapes '
-                       '(ping-pong, fill/drain bursts with shuffled sends and several messages held, random walk, nearly-full with wrap), observation ops (empty/state/guard) after every step in half of them; '
+                       '(long runs of >= 300 cycles on depths not dividing 256, ping-pong, fill/drain bursts with shuffled sends and several messages held, random walk, nearly-full with wrap), observation ops (empty/state/guard) after every step in half of them; '
                        'outputs compared: returned offsets/NULL, empty, all struct fields, guard+slack+slot bytes, initialiser equality; distinct = distinct op list; non-trivial = more than 6 ops')
     ctx.assumptions.append(META['level_note'])
 
